@@ -13,10 +13,26 @@ P = {
  "C05": (False, "", "", "", "§6 C05"),
  "C06": (False, "", "", "", "§6 C06"),
  "C07": (False, "", "", "", "§6 C07"),
- "C08": (False, "", "", "", "§6 C08"),
- "C09": (False, "", "", "", "§6 C09"),
- "C10": (False, "", "", "", "§6 C10"),
- "C11": (False, "", "", "", "§6 C11"),
+ "C08": (True,
+   'exhaustive short-string enumeration + grammar-directed proptest generation and mutation, differential against a hand-written SemVer 2.0.0 recogniser; print/parse round-trip; L1 vs real-binary differential for `check`',
+   "Every suffix of '1.0.0' up to 6/7 symbols and every core string up to 7/8 symbols over grammar-relevant alphabets (incl. non-ASCII digit/letter) is decided against an independent recogniser of the SemVer BNF; generated valid strings with numbers up to 10^25 and their 1-2 symbol mutants are sampled; accepted strings must print back character for character; `zerv check` must agree in-process and through the binary.",
+   'Trusts harness/src/oracle/semver.rs (unit-tested on the semver.org regex test-suite examples). A grammar-valid string whose number exceeds u64 may be rejected but never printed differently.',
+   "§6 C08"),
+ "C09": (True,
+   'exhaustive short-string enumeration + all-spellings generator and mutator (proptest), differential against a hand-written backtracking matcher/normaliser of PEP 440 Appendix B; idempotence and equality round-trips; L1 vs binary differential',
+   "All strings up to length 4/5 and all suffixes of '1.0' up to 4/5 over 26 symbols (PEP 440 alphabet + case-folding look-alikes ſ, K) are decided against an independent matcher; every spelling of structured versions and their mutants are sampled; accepted strings must print the oracle's normal form with every number preserved, normalising must be idempotent and compare equal; `zerv check` must agree.",
+   'Trusts harness/src/oracle/pep440.rs, cross-checked against python `packaging` on 244k ASCII strings by tools/xcheck_oracles.py (0 disagreements). Numbers above u32 may be rejected, never altered.',
+   "§6 C09"),
+ "C10": (True,
+   'exhaustive all-pairs enumeration of a 2072-version universe + random large versions, differential against an independent SemVer §11 comparator; order laws (antisymmetry, transitivity, == iff Equal) checked oracle-free; max-tag validity predicate',
+   'All 4.29 M ordered pairs of the universe (8 cores x all pre-release lists of length <=3 over {0,1,10,a,B,-}, build metadata attached) are compared with an arbitrary-precision reference comparator; transitivity over pre-release triples (all 259^3 in thorough); random versions with numbers to u64::MAX and lists to 8; find_max_version_tag must return an element no other exceeds.',
+   "Trusts harness/src/oracle/semver.rs::cmp (unit-tested on the spec's precedence chain).",
+   "§6 C10"),
+ "C11": (True,
+   'exhaustive all-pairs enumeration of an 1800-version field universe in index-derived spellings + random versions, differential against the ordering key stated in C11; spelling-independence and order laws checked oracle-free',
+   'All 3.24 M ordered pairs of the universe, each side rendered in a different spelling (case, separators, alternative labels, leading zeros, v, explicit 0!, implicit numbers, trailing .0), are compared with the stated key computed on digit strings; all spellings of one version must compare Equal and ==; transitivity/antisymmetry on random triples; max-tag predicate for PEP 440 tags.',
+   'Trusts harness/src/oracle/pep440.rs::cmp, written from the key in the property statement (which differs from PEP 440 proper only in where a bare dev release sorts).',
+   "§6 C11"),
  "C12": (False, "", "", "", "§6 C12"),
  "C13": (False, "", "", "", "§6 C13"),
  "C14": (False, "", "", "", "§6 C14"),
@@ -26,7 +42,11 @@ P = {
    "Every (string, settings) pair of a 9-symbol alphabet up to length 5/6 x 112 settings is enumerated, random Unicode strings and the template-function path are sampled; each output is compared with a reference model written from the statement. No counter-example in the explored space; not a proof for longer strings.",
    "Trusts the reference model in harness/src/oracle/sanitize.rs (unit-tested on the documented examples); bounded outputs are accepted when they are any re-normalised prefix of the unbounded contract output.",
    "§6 C16"),
- "C17": (False, "", "", "", "§6 C17"),
+ "C17": (True,
+   'exhaustive enumeration of every day 1970-2199 (first and last second) x 16 patterns + random boundary-biased instants, differential against an independent civil-from-days calendar; CLI metamorphic relation ts(p) == literal of the oracle value; harness runs 14 h away from UTC',
+   "Every day of the quantifier's range is checked at 00:00:00 and 23:59:59 for all 16 patterns against Hinnant's calendar algorithm (no chrono); CalVer presets are run through the version pipeline on sources none and stdin and must start with the UTC year.month.day of the commit (else tag) time; each documented pattern by name in each schema section must render exactly like the literal of the oracle's value.",
+   'Trusts harness/src/oracle/calendar.rs (unit-tested on known dates, leap years and week-0 cases). The in-process layer runs with TZ=<+14>-14 so any local-time use shows.',
+   "§6 C17"),
  "C18": (False, "", "", "", "§6 C18"),
 }
 
